@@ -101,9 +101,13 @@ struct HArray : public HashTable<Key_T, HAItem_T<Key_T, Value_T>> {
             return;
         }
 
-        const SizeT  n_size   = (Size() + src.Size());
-        HItem       *src_item = src.Storage();
-        const HItem *src_end  = (src_item + src.Size());
+        // Take the source's table first: the source can be stored inside one of this table's values,
+        // and growing relocates the values (v += Move(v["a"]) on an object that is full).
+        HArray source{Memory::Move(src)};
+
+        const SizeT  n_size   = (Size() + source.Size());
+        HItem       *src_item = source.Storage();
+        const HItem *src_end  = (src_item + source.Size());
 
         if (n_size > Capacity()) {
             resize(n_size);
@@ -125,10 +129,10 @@ struct HArray : public HashTable<Key_T, HAItem_T<Key_T, Value_T>> {
             ++src_item;
         }
 
-        Memory::Deallocate(src.getHashTable());
-        src.clearHashTable();
-        src.setSize(0);
-        src.setCapacity(0);
+        Memory::Deallocate(source.getHashTable());
+        source.clearHashTable();
+        source.setSize(0);
+        source.setCapacity(0);
     }
 
     void operator+=(const HArray &src) {
